@@ -4,6 +4,8 @@ use lv_common::{Ctx, parse_args};
 mod c43;
 mod c44;
 mod c45;
+mod fake;
+mod prover;
 
 fn main() {
     let args = parse_args();
